@@ -834,3 +834,4 @@ def run(prog, R, tier):
     r_class(prog, R)
     r_namelen(prog, R)
     codecrules.r_preslimit(prog, R, "R-C04-PRESLIMIT")
+    codecrules.r_suffix(prog, R, "R-C04-SUFFIX")
